@@ -231,7 +231,7 @@ ADDED = {
         "(Q5) the dead-variable usage state is monotone over the states its family can take. (Q6) available expressions: generation before kill; (Q7) the targets of a multiple assignment are walked with exactly foamArgc of the Values node (10 vector/count pairs in the optimizer). (Q8) variadic node constructors in the optimizer are given exactly the number of children they are told (rules/variadic.py).",
  "C03": "Also (T4) per builtin, interpreter case == C form computed from gc0Builtin's source (abstract walk of the generator for the fixed "
         "tag); (T5) no CCode fragment built by the generator is dropped; (T6) the state saved at a try block covers every interpreter "
-        "register a normal return restores. (T7) the C printer parenthesises as the C grammar requires and separates a prefix operator from a prefix operand; (T8) in gccReturn no exit avoids the foamProgUsesFluids test and the fluid side carries gc0PopFluid (CFG). (T9) the same count agreement for ccoNew/foamNew in the C generator and printer; (T10) the C printer writes a non-printable byte of a string constant as a three-digit octal escape of the unsigned byte.",
+        "register a normal return restores. (T7) the C printer parenthesises as the C grammar requires and separates a prefix operator from a prefix operand; (T8) in gccReturn no exit avoids the foamProgUsesFluids test and the fluid side carries gc0PopFluid (CFG). (T9) the same count agreement for ccoNew/foamNew in the C generator and printer; (T10) the C printer writes a non-printable byte of a string constant as a three-digit octal escape of the unsigned byte. (T11) the same variant/tag agreement for the single-tag handlers of gccExpr, gccCmd and gccRef.",
  "C04": "The C form is computed from the generator's source (rules/ccoeval.py), not read off by hand. Also (B5) the ring-algebra cells of "
         "the peephole table, forwarded from C02-Q1. (B6) every Bool-returning builtin yields a canonical 0/1 in all copies; (B7) no int-width shift by a variable count inside 64-bit arithmetic; (B8) the word add/multiply steps take the carry of every two-term sum.",
  "C05": "Also (W4 reduce) shape of foamSIntReduce (mask/width, one ShiftUp+Or per chunk, sign; other loop shapes are refused as analysis "
@@ -247,7 +247,7 @@ ADDED = {
  "C09": "Also (G4) the cells holding the sweep's free-piece index lie inside their pages (= C10 T-carve). (G5) storage freed through a global reference is not left referenced; (G6) the marker's tail-iteration test is not a comparison with the byte-granular scan bound. (G7) the Linux osMemMap bounds its entry cursor by the table's capacity and guards the look-back at the previous entry.",
  "C10": "Also (T-section) the page request for a new mixed section dominates the capacity formula of sectQmCount; (T-carve) bookkeeping "
         "cells cut from a page by stoAllocInner number floor(bytes/size). (T-btree) a searched B-tree node is not used after a restructuring call; (T-sweep) mark bits of the quanta starting at S are cleared under a test of the tag loaded from sect->info[S]. (T-width) a value asserted below a constant and kept in an integer field fits the field's type.",
- "C12": "Also (J7) no JavaCode fragment built by the generator is dropped. (J5b) single-return runtime methods stay single-return; (J8) operator precedence/associativity table against the Java grammar; (J9) the gj0BCall handlers hand the operands to the Java constructors in order (symbolic evaluation of their list manipulation, rules/listeval.py). (J10) count agreement of the variadic constructors in the Java generator; (J11) character constants that Java's grammar forbids between quotes (backslash, quote, CR, LF) are written as escapes.",
+ "C12": "Also (J7) no JavaCode fragment built by the generator is dropped. (J5b) single-return runtime methods stay single-return; (J8) operator precedence/associativity table against the Java grammar; (J9) the gj0BCall handlers hand the operands to the Java constructors in order (symbolic evaluation of their list manipulation, rules/listeval.py). (J10) count agreement of the variadic constructors in the Java generator; (J11) character constants that Java's grammar forbids between quotes (backslash, quote, CR, LF) are written as escapes. (J12) each single-tag handler of the Java generator's dispatcher reads only its own tag's variant member of the FOAM node.",
  "C13": "Also (U3) every step that passes the syntax gate reaches the binder, whose entry applies the pending roll-back. (U4) line continuation inside string literals; (U5) the undo predicate selects uses whose node has no meaning.",
  "C15": "Also (P5) messages grouped under one source excerpt are grouped by a key that identifies a physical line. (P4) every #line renumbering reaches the line table on every path; (P6) in inclFile no path from the state switch reaches inclError without restoring the includer's state.",
  "C16": "Also (M4) every comparison of the unit's statement total with -Csmax has the strictness of gc0OverSMax. (M5) names declared without static are unit-qualified in split mode; (M6) gc0TypeRequiresDecl answers true for every FOAM type whose C type the default argument promotions change (types read through a probe unit).",
